@@ -56,7 +56,7 @@ func main() {
 	tmp.Write(ov)
 	tmp.Close()
 	defer os.Remove(tmp.Name())
-	cmd := exec.Command("go", "test", "-overlay", tmp.Name(), "-vet=off", "-count=1", "-timeout", "60s", "-run", "^"+run+"$", "./"+pkgdir)
+	cmd := exec.Command("go", "test", "-tags=verif", "-overlay", tmp.Name(), "-vet=off", "-count=1", "-timeout", "60s", "-run", "^"+run+"$", "./"+pkgdir)
 	cmd.Dir = repo
 	cmd.Env = append(os.Environ(), "GOFLAGS=-mod=mod", "GOPROXY=off", "GOSUMDB=off", "GOTOOLCHAIN=local")
 	cmd.Stdout, cmd.Stderr = os.Stdout, os.Stderr
